@@ -4,8 +4,10 @@ cd /verif
 for d in seeded/*/; do
   id=$(basename $d); prop=${id%%-*}
   git -C /repo apply /verif/$d/patch.diff || { echo "$id PATCH-FAILS"; continue; }
+  cp evidence/$prop.json /tmp/evidence_$prop.bak 2>/dev/null   # the evidence of the unchanged tree must survive this run
   timeout 1800 ./check $prop --tier quick > /tmp/seeded_$id.log 2>&1; rc=$?
   git -C /repo checkout -- .
+  cp /tmp/evidence_$prop.bak evidence/$prop.json 2>/dev/null
   kind=$(grep -m1 "^VIOLATION" /tmp/seeded_$id.log | sed 's/.*replay=//')
   echo "$id exit=$rc $kind"
   python3 - "$d" "$rc" "$kind" <<'PY'
